@@ -93,12 +93,15 @@ def main():
                 for ln in (res.get(p, {}).get("lines") or [])[:2]:
                     print("     ", ln[:200])
             results.append(res)
-    path = os.path.join(VERIF, "seeded", "RESULTS.json")
-    old = []
-    if os.path.exists(path):
-        old = [r for r in json.load(open(path)) if (r.get("kind"), r.get("name")) not in {(x["kind"], x["name"]) for x in results}]
-    with open(path, "w") as f:
-        json.dump(sorted(old + results, key=lambda r: (r.get("kind", ""), r.get("name", ""))), f, indent=1)
+    rdir = os.path.join(VERIF, "seeded", ".results")
+    os.makedirs(rdir, exist_ok=True)
+    for r in results:  # one file per change: parallel invocations never write the same file
+        with open(os.path.join(rdir, f"{r['kind']}-{r['name']}.json"), "w") as f:
+            json.dump(r, f, indent=1)
+    allr = [json.load(open(os.path.join(rdir, fn))) for fn in sorted(os.listdir(rdir)) if fn.endswith(".json")]
+    allr = [r for r in allr if os.path.isdir(os.path.join(VERIF, r["kind"], r["name"]))]
+    with open(os.path.join(VERIF, "seeded", "RESULTS.json"), "w") as f:
+        json.dump({"seed": os.environ.get("VERIF_SEED", "default"), "results": allr}, f, indent=1)
     bad = [r for r in results if r.get("detected") is False or r.get("quiet") is False or "error" in r]
     sys.exit(1 if bad else 0)
 
